@@ -6,6 +6,12 @@
 //! This crate implements the ClockBound daemon
 
 pub mod channels;
+#[cfg(clock_bound_verif)]
+pub mod verif;
+#[cfg(clock_bound_verif)]
+pub use chrony_poller::verif_api as verif_poller;
+#[cfg(clock_bound_verif)]
+pub use shm_writer::verif_api as verif_writer;
 mod chrony_poller;
 mod shm_writer;
 pub mod signal;
